@@ -323,6 +323,32 @@ def pack_subpackages_only():
     return [e, r, o], []
 
 
+def pack_map_value_only():
+    """Modules that a file needs *only* for the value type of a map field: another file of the API, a dependency outside the
+    API, an installed module; messages and enums.  One referrer file per module so that no ordinary field asks for the import."""
+    op = 'acme.other.v1'
+    aux = file('acme/wire/v1/pins.proto', P, messages=[message('Pin', [field('at', 1, 'string')])],
+               enums=[enum('PinKind', 'PIN_KIND_UNSPECIFIED', 'ROUND')])
+    aux2 = file('acme/wire/v1/flags.proto', P, enums=[enum('Flag', 'FLAG_UNSPECIFIED', 'RAISED')])
+    dep = file('acme/other/v1/money.proto', op, messages=[message('Money', [field('units', 1, 'int64')])])
+    dep2 = file('acme/other/v1/regions.proto', op, enums=[enum('Region', 'REGION_UNSPECIFIED', 'EU')])
+    mods = ['google.type.date_pb2', 'google.type.dayofweek_pb2']
+    std = desc.std_dep_names(mods)
+    files = [aux, aux2]
+    for i, (vt, needs) in enumerate([(Q('Pin'), aux.name), ('enum:' + Q('Flag'), aux2.name), (f'.{op}.Money', dep.name),
+                                     ('enum:' + f'.{op}.Region', dep2.name), ('.google.type.Date', None),
+                                     ('enum:.google.type.DayOfWeek', None)]):
+        mf, me = map_field(Q(f'Holder{i}'), 'by_key', 2, 'string', vt)
+        mf2, me2 = map_field(Q(f'Holder{i}.Inner'), 'inner_by_id', 1, 'int64', vt)
+        f = file(f'acme/wire/v1/holder{i}.proto', P, messages=[
+            message(f'Holder{i}', [field('tag', 1, 'string'), mf], nested=[me, message('Inner', [mf2], nested=[me2])])])
+        f.dependency.extend(std + ([needs] if needs else []))
+        files.append(f)
+    for f in (aux, aux2, dep, dep2):
+        f.dependency.extend(std)
+    return files, [dep, dep2], mods
+
+
 def negative_enum_pack():
     f = file('acme/wire/v1/neg.proto', P, enums=[enum('Signed', ('SIGNED_UNSPECIFIED', 0), ('MINUS', -1), ('PLUS', 1))],
              messages=[message('UsesSigned', [field('s', 1, 'enum:' + Q('Signed'))])])
@@ -355,6 +381,7 @@ def make_jobs(ctx, only=None):
     add('subpackages-only', *pack_subpackages_only())
     add('shadowed-top-level', *pack_shadowed_top_level())
     add('negative-enum', *negative_enum_pack())
+    add('map-value-only-imports', *pack_map_value_only())
     add('keyword-enum-values', *keyword_enum_values_pack())
     files, deps, mods, cells = pack_refs(4)
     add('refs', files, deps, mods, extra=cells)
